@@ -36,10 +36,12 @@ import unified_planning.engines as engines
 import unified_planning.engines.mixins as mixins
 from unified_planning.model.action import DurativeAction, InstantaneousAction
 from unified_planning.model.effect import Effect, EffectKind, SimulatedEffect
+from unified_planning.model.fluent import get_all_fluent_exp
 from unified_planning.model.fnode import FNode
 from unified_planning.model.metrics import PlanQualityMetric, MinimizeActionCosts
 from unified_planning.model.state import UPState
 from unified_planning.model.timing import TimeInterval, TimepointKind, Timing
+from unified_planning.model.types import _RealType
 from unified_planning.model import (
     AbstractProblem,
     Problem,
@@ -611,6 +613,31 @@ class TimeTriggeredPlanValidator(engines.engine.Engine, mixins.PlanValidatorMixi
                 )
             )
             next_id += 1
+
+        # Bounded numeric types are checked as state invariants, as the UPSequentialSimulator does
+        for fluent in problem.fluents:
+            if not (fluent.type.is_int_type() or fluent.type.is_real_type()):
+                continue
+            fluent_type = cast(_RealType, fluent.type)
+            lower_bound, upper_bound = fluent_type.lower_bound, fluent_type.upper_bound
+            if lower_bound is None and upper_bound is None:
+                continue
+            for f_e in get_all_fluent_exp(problem, fluent):
+                bounds: List[FNode] = []
+                if lower_bound is not None:
+                    bounds.append(em.LE(lower_bound, f_e))
+                if upper_bound is not None:
+                    bounds.append(em.LE(f_e, upper_bound))
+                for bound in bounds:
+                    durative_conditions.append(
+                        (
+                            (Fraction(0), None, False),
+                            next_id,
+                            bound,
+                            None,
+                        )
+                    )
+                    next_id += 1
 
         time = Fraction(0)
         last_state = UPState(problem.explicit_initial_values, problem)
